@@ -78,6 +78,17 @@ def lib_eval(path, auto_slot):
         return ("DataError",)
     except Exception as e:  # noqa
         return ("foreign", "encode:" + type(e).__name__)
+    # a port segment is self-contained (its pad byte belongs to it): the same route gives the same bytes through every encoder
+    from pycomm3.cip import EPATH, PACKED_EPATH, PortSegment
+
+    for name, f in (("EPATH", lambda: EPATH.encode(route, length=True)), ("PACKED_EPATH", lambda: PACKED_EPATH.encode(route, length=True)),
+                    ("PortSegment.encode", lambda: (lambda body: bytes([len(body) // 2]) + body)(b"".join(PortSegment.encode(s) for s in route)))):
+        try:
+            other = bytes(f())
+        except Exception as e:  # noqa
+            other = type(e).__name__.encode()
+        if other != bytes(b):
+            return ("encoders-differ", ip, port, bytes(b), name, other)
     return ("ok", ip, port, bytes(b))
 
 
@@ -92,7 +103,7 @@ def route_families():
 
 
 def shards(tier, seed):
-    return [("product1",), ("product2", 0), ("product2", 1), ("product2", 2), ("product2", 3), ("diag",), ("seps",), ("autoslot",), ("edits",), ("tcp",), ("drivers",), ("history",), ("pairs",), ("routestr",)]
+    return [("product1",), ("product2", 0), ("product2", 1), ("product2", 2), ("product2", 3), ("diag",), ("seps",), ("autoslot",), ("edits",), ("tcp",), ("drivers",), ("history",), ("pairs",), ("routestr",), ("msgroute",)]
 
 
 def describe(tier, seed):
@@ -326,6 +337,51 @@ def run_shard(shard, tier, seed):
                         used = "".join(sorted(set(seps)))
                         rep.violation("route-string/separator-" + ("comma" if "," in used else "slashes"),
                                       f"parse_cip_route({path!r}) -> {got!r:.120}; documented route bytes {want.hex()}", {"kind": "routestr", "path": path})
+    elif k == "msgroute":
+        # route strings handed to generic_message on every driver class: what the reference target sees in the Unconnected Send.
+        # The bare-slot shortcut belongs to the connection path of the Logix/SLC drivers only, a message route is always pairs.
+        import pycomm3
+        from vmc.checks import c14
+        from vmc.checks.harness import call, make_target
+        from vmc.ref import net
+
+        drivers = (("CIPDriver", lambda: pycomm3.CIPDriver("10.0.0.1/bp/2")), ("LogixDriver", lambda: pycomm3.LogixDriver("10.0.0.1/bp/2", init_tags=False)),
+                   ("LogixDriver-bare", lambda: pycomm3.LogixDriver("10.0.0.1", init_tags=False)), ("SLCDriver", lambda: pycomm3.SLCDriver("10.0.0.1")), ("SLCDriver-slot", lambda: pycomm3.SLCDriver("10.0.0.1/3")))
+        invalid = [("odd-segments", s) for s in ("3", "0", "17", "255", "bp", "enet", "10.11.12.13", "1/2/3", "bp/1/2", "bp,1,enet", "bp/1/enet/10.11.12.13/bp")]
+        invalid += [("unknown-port", s) for s in ("foo/1", "bp/1/bar/2", "backplan/0")] + [("link-range", s) for s in ("bp/256", "1/1000", "bp/1/enet/999")]
+        for name, mkd in drivers:
+            dev = c14.LogDevice()
+            t = make_target(dev)
+            w = net.World(t, io_budget=10_000_000)
+            w.__enter__()
+            try:
+                d = mkd()
+                d.open()
+                base = dict(service=0x0E, class_code=0x99, instance=1, attribute=1, connected=False, unconnected_send=True)
+                for hops in (1, 2, 3):
+                    for segs in fam[hops]:
+                        for seps in itertools.product(SEPS, repeat=len(segs) - 1):
+                            rs = segs[0] + "".join(sp + sg for sp, sg in zip(seps, segs[1:]))
+                            want = ref_parse("h", None, segs, False)[2]
+                            dev.reply = (0, [], b"ok")
+                            t.cip_log.clear()
+                            r = call(d.generic_message, route_path=rs, **base)
+                            seen = [(e["transport"], None if e["route"] is None else [tuple(x) for x in e["route"]]) for e in t.cip_log]
+                            ok = r[0] == "ok" and bool(r[1]) and seen == [("ucsend", [tuple(x) for x in want])]
+                            rep.case(("msgroute", name, rs), outcome="ok" if ok else "bad")
+                            if not ok:
+                                rep.violation(f"message-route/{name}/valid/{hops}hop", f"{name}.generic_message(route_path={rs!r}): target saw {seen!r:.120}, result {r!r:.80}; documented route {want!r}", {"kind": "msgroute", "drv": name})
+                for why, rs in invalid:
+                    t.cip_log.clear()
+                    r = call(d.generic_message, route_path=rs, **base)
+                    seen = [(e["transport"], e["route"]) for e in t.cip_log]
+                    ok = not seen and r[0] == "pycomm" and r[1] in ("RequestError", "DataError")
+                    rep.case(("msgroute-invalid", name, rs), outcome=r[0] if not ok else "rejected")
+                    if not ok:
+                        rep.violation(f"message-route/{name}/invalid-{'accepted' if seen else 'not-refused'}/{why}", f"{name}.generic_message(route_path={rs!r}) -> {r!r:.100}, target saw {seen!r:.100}; the string is outside the grammar ({why})", {"kind": "msgroute", "drv": name})
+            finally:
+                w.__exit__()
+        rep.sample({"drivers": [n for n, _ in drivers], "invalid_route_strings": len(invalid)})
     elif k == "drivers":
         import pycomm3
         from pycomm3.cip import PADDED_EPATH
@@ -364,7 +420,7 @@ def replay(r):
         print("path     :", r["path"], "auto_slot", r["auto_slot"], "(invalid:", r["why"] + ")")
         print("library  :", got)
         return got[0] in ("RequestError", "DataError")
-    rep = run_shard(("routestr",) if r["kind"] == "routestr" else ("drivers",), "quick", 0)
+    rep = run_shard(("routestr",) if r["kind"] == "routestr" else ("msgroute",) if r["kind"] == "msgroute" else ("drivers",), "quick", 0)
     for s, vs in rep.violations.items():
         print("  violates:", s, "::", vs[0].msg[:300])
     return not rep.violations
